@@ -2,6 +2,7 @@
 //! tree) on generated operations and prints one line per operation:  `<op line> => <canonical output>`.
 //! The Lean driver is fed the `<op line>` part and must print the same `<canonical output>`.
 mod consts;
+mod fam_auth;
 mod fam_bank;
 mod fam_curve;
 mod fam_fx;
@@ -12,6 +13,7 @@ mod fam_tokenfee;
 mod mon;
 mod mon_c02;
 mod mon_c03;
+mod mon_c08;
 mod mon_c14;
 mod mon_c15;
 mod mon_c17;
@@ -59,6 +61,7 @@ fn main() {
                 "integr" => fam_integr::gen(&mut rng, n, &mut out),
                 "tokenfee" => fam_tokenfee::gen(&mut rng, n, &mut out),
                 "bankstate" => fam_gate::gen(&mut rng, n, &mut out),
+                "signer" => fam_auth::gen(&mut rng, n, &mut out),
                 "panic" => fam_panic::gen(&mut rng, n, &mut out),
                 _ => {
                     eprintln!("unknown family {}", fam);
@@ -89,6 +92,7 @@ fn main() {
                 "IX" => scen::run(&mut rng, n, &mut rep),
                 "C02" => mon_c02::run(&mut rng, n, &mut rep),
                 "C03" => mon_c03::run(&mut rng, n, &mut rep),
+                "C08" => mon_c08::run(&mut rng, n, &mut rep),
                 "C14" => mon_c14::run(&mut rng, n, &mut rep),
                 "C15" => mon_c15::run(&mut rng, n, &mut rep),
                 "C17" => mon_c17::run(&mut rng, n, &mut rep),
